@@ -28,6 +28,16 @@ func init() {
 const simSched = `disr\.SimulateScheduling\(\$0\.kubeClient, \$0\.cluster, \$0\.provisioner, \$0\.clock, \$0\.recorder, &local<\[1\]sched\.Options>\[:\], \$2\)`
 
 func c06Rules(tier string) []Rule {
+	rules := c06RulesBase(tier)
+	rules = append(rules, nodePodsRules("C06")...)
+	// the candidates are re-validated *after* the validation period: what validateCommand re-simulates is the snapshot
+	// taken then, so nothing waits once the first validateCandidates has run
+	rules = append(rules, NOREACH{ID: "C06.FRESH1", Fn: "(*disr.ConsolidationValidator).isValid", From: `^call \(\*disr\.ConsolidationValidator\)\.validateCandidates\(\$0, \$2\.Candidates\)$`,
+		Sink: `^call iface:\(k8s\.io/utils/clock\.\w+\)\.(After|Sleep)\(|^call time\.(Sleep|After)\(`, Note: "no waiting after the candidates were validated"})
+	return rules
+}
+
+func c06RulesBase(tier string) []Rule {
 	const (
 		cc   = "(*disr.consolidation).computeConsolidation"
 		s2s  = "(*disr.consolidation).computeSpotToSpotConsolidation"
